@@ -352,6 +352,7 @@ static void take_snap (struct snap *s) {
 			s->fds++;
 			size_t L = strlen (s->fdt);
 			if (strncmp (tg, "socket:", 7) == 0) strcpy (tg, "socket");
+			if (strncmp (tg, "pipe:", 5) == 0) strcpy (tg, "pipe");
 			snprintf (s->fdt + L, sizeof s->fdt - L, "%d=%s,", fd, tg);
 		}
 		__real_closedir (d);
